@@ -13,6 +13,8 @@ CONSTANTS
   Comp <- CompDef
 INVARIANT FreeVsInlinedAgree
 INVARIANT ConfigOnlyChangesFreeSymbols
+INVARIANT SubstitutionBeatsConstants
+INVARIANT SymbolOrderIrrelevant
 INVARIANT ParamsAreTheFreeSymbols
 INVARIANT UntouchedOnlyFeed
 INVARIANT RatePolyMatches
